@@ -46,6 +46,20 @@ def ubiUpsert (records : List (Nat × Nat)) (amount period hardcap : Nat) : Opti
   if period = 0 ∨ records.any (fun r => r.2 == 0) then none
   else some (accept yearSeconds word records amount period hardcap)
 
+/-- the handler's effect on the record set: `none` = panic, `some none` = rejected, `some (some rs)` = accepted with
+the new record set. `replace = some j` (with `j` a valid index) is an upsert under the NAME of the j-th stored record:
+SetUBIRecord overwrites it; the acceptance test still counts the old record (it is not subtracted). -/
+def ubiApply (records : List (Nat × Nat)) (replace : Option Nat) (amount period hardcap : Nat) :
+    Option (Option (List (Nat × Nat))) :=
+  match ubiUpsert records amount period hardcap with
+  | none => none
+  | some false => some none
+  | some true =>
+    match replace with
+    | some j => if j < records.length then some (some (records.set j (amount, period)))
+                else some (some (records ++ [(amount, period)]))
+    | none => some (some (records ++ [(amount, period)]))
+
 /-! ### UBI payout schedule (x/ubi/abci.go): a record is due when `now > last + period ∧ (end = 0 ∨ last < end)` -/
 structure UbiRec where
   amount : Nat
